@@ -31,7 +31,7 @@ CASE_REAL_TIMEOUT = float(os.environ.get("VERIF_CASE_TIMEOUT", "240"))
 
 
 class Result:
-    __slots__ = ("violations", "labels", "nontrivial", "inconclusive", "info")
+    __slots__ = ("violations", "labels", "nontrivial", "inconclusive", "info", "counts")
 
     def __init__(self):
         self.violations = []  # (signature, message)
@@ -39,6 +39,7 @@ class Result:
         self.nontrivial = False
         self.inconclusive = None  # reason string: the case could not be judged
         self.info = {}
+        self.counts = {}  # named unit counters (e.g. address pairs covered inside one case), summed into the evidence
 
     def fail(self, sig, msg=""):
         self.violations.append((sig, str(msg)[:600]))
@@ -91,6 +92,7 @@ class Collector:
         self.inconclusive = {}
         self.max_samples = max_samples
         self.harness_errors = []
+        self.counts = {}
 
     def run(self, case):
         if self.use_alarm:
@@ -116,6 +118,8 @@ class Collector:
         self.evaluations += 1
         for lb in res.labels:
             self.labels[lb] = self.labels.get(lb, 0) + 1
+        for k, v in res.counts.items():
+            self.counts[k] = self.counts.get(k, 0) + v
         if res.inconclusive:
             self.inconclusive[res.inconclusive] = self.inconclusive.get(res.inconclusive, 0) + 1
         if res.nontrivial:
@@ -142,7 +146,7 @@ class Collector:
     def export(self):
         return {"evaluations": self.evaluations, "nontrivial": self.nontrivial, "labels": self.labels,
                 "sigs": self.sigs, "samples": self.samples, "nt_samples": self.nt_samples,
-                "inconclusive": self.inconclusive, "harness_errors": self.harness_errors[:3]}
+                "inconclusive": self.inconclusive, "harness_errors": self.harness_errors[:3], "counts": self.counts}
 
 
 def _load_check(name):
@@ -349,7 +353,7 @@ def main(modname, tier, seed):
     parts = check.parts(tier)
 
     total = {"evaluations": 0, "nontrivial": set(), "labels": {}, "sigs": {}, "samples": [], "nt_samples": [],
-             "inconclusive": {}, "parts": {}}
+             "inconclusive": {}, "parts": {}, "counts": {}}
     harness_errors = []
 
     def merge(out, partname):
@@ -365,6 +369,8 @@ def main(modname, tier, seed):
             total["labels"][k] = total["labels"].get(k, 0) + v
         for k, v in out["inconclusive"].items():
             total["inconclusive"][k] = total["inconclusive"].get(k, 0) + v
+        for k, v in out.get("counts", {}).items():
+            total["counts"][k] = total["counts"].get(k, 0) + v
         for sig, (cnt, case, msg) in out["sigs"].items():
             ent = total["sigs"].get(sig)
             if ent is None:
@@ -454,6 +460,7 @@ def write_evidence(check, tier, seed, total, parts, t0, nviol, sig_report, error
         "signatures": sig_report,
         "excluded_by_known_finding": known_hits or {},
         "inconclusive": total["inconclusive"],
+        "unit_counts": total.get("counts", {}),
     }
     ex = [p.name for p in parts if p.exhaustive]
     if ex:
